@@ -74,6 +74,12 @@ func (p *populator) fill(v reflect.Value, depth int) {
 	case reflect.Bool:
 		v.SetBool(p.counter%2 == 0)
 	case reflect.Int, reflect.Int8, reflect.Int16, reflect.Int32, reflect.Int64:
+		if p.counter%3 != 0 {
+			// an integer field is often a code (value type −2/−1/0, consistency, …): the small numbers around zero are the declared
+			// ones — a copy routine that treats some code specially is only exercised when that code occurs
+			v.SetInt([]int64{-2, -1, 0, 1, 2, 3}[p.rng.Intn(6)])
+			break
+		}
 		v.SetInt(int64(p.counter%100 + 1))
 	case reflect.Uint, reflect.Uint8, reflect.Uint16, reflect.Uint32, reflect.Uint64:
 		v.SetUint(uint64(p.counter%100 + 1))
